@@ -119,11 +119,11 @@ let parse_op (ws : string list) : map_op =
   match List.hd ws with
   | "withcap" -> OpWithCapacity (z 1)
   | "insert" -> OpInsert (z 1, z 2, z 3)
-  | "get" -> OpGet (z 1)
-  | "getkv" -> OpGetKeyValue (z 1)
-  | "contains" -> OpContains (z 1)
-  | "getmut" -> OpGetMut (z 1, z 2)
-  | "remove" -> OpRemove (z 1)
+  | "get" | "getb" -> OpGet (z 1)
+  | "getkv" | "getkvb" -> OpGetKeyValue (z 1)
+  | "contains" | "containsb" -> OpContains (z 1)
+  | "getmut" | "getmutb" -> OpGetMut (z 1, z 2)
+  | "remove" | "removeb" -> OpRemove (z 1)
   | "removeentry" -> OpRemoveEntry (z 1)
   | "tryinsert" -> OpTryInsert (z 1, z 2, z 3)
   | "entry_or_insert" | "rentry_or_insert" | "raw_or_insert" | "eref_or_insert" -> OpEntryOrInsert (z 1, z 2, z 3)
@@ -141,7 +141,7 @@ let parse_op (ws : string list) : map_op =
   | "shrinkto" -> OpShrinkTo (z 1)
   | "shrinktofit" -> OpShrinkToFit
   | "retain" -> OpRetain (List.map zs (rest 2), z 1)
-  | "extend" -> OpExtend (List.map parse_kv3 (rest 1))
+  | "extend" | "fromiter" -> OpExtend (List.map parse_kv3 (rest 1))
   | "drain" | "forget_drain" | "forget_iter" -> OpDrain (n 1)
   | "extractif" | "forget_extractif" -> OpExtractIf (List.map zs (rest 2), n 1)
   | "forget_entry" -> OpContains (z 1)
@@ -1030,7 +1030,7 @@ let () =
            | OpReserve n | OpTryReserve n | OpShrinkTo n | OpWithCapacity n -> Z.ltb (zs "16777216") n
            | _ -> false) in
          if huge then bump branch "huge_capacity_request";
-         if do_c && lawful && not other_arm && not is_libpanic && not is_par && not huge then begin
+         if do_c && lawful && not other_arm && not is_libpanic && not is_par && not huge && not (opname = "fromiter" && arm <> "-") then begin
            incr c_checked;
            let step t o = map_step cfg.backend cfg.tsize cfg.talign cfg.needs_drop rehash_guard_unconditional
                     (hash_of panic_key) refuse t o in
@@ -1040,7 +1040,27 @@ let () =
            let key_absent = is_rentry && (match step tpre (OpContains (zs (List.nth opws 1))) with
              | Ok ((_, OutBool false), _) -> true | _ -> false) in
            let model_result =
-             if key_absent then
+             if opname = "fromiter" then
+               (* FromIterator: with_capacity(size_hint().0) ; insert each ; the old map is dropped afterwards *)
+               (match op with
+                | OpExtend items ->
+                  (match step (new_table cfg.backend) (OpWithCapacity (zi (List.length items))) with
+                   | Fail e -> Fail e
+                   | Ok ((t0, _), ev0) ->
+                     let rec ins t evs = function
+                       | [] -> Ok (t, evs)
+                       | (e : kv) :: r ->
+                         (match step t (OpInsert (e.k_id, e.k_stamp, e.v_val)) with
+                          | Fail x -> Fail x
+                          | Ok ((t1, o1), ev1) -> if o1 = OutUnwind then Fail UB_unreachable else ins t1 (evs @ ev1) r) in
+                     (match ins t0 ev0 items with
+                      | Fail e -> Fail e
+                      | Ok (t1, evs) ->
+                        (match step tpre OpDropMap with
+                         | Fail e -> Fail e
+                         | Ok (_, evd) -> bump branch "from_iter"; Ok ((t1, OutUnit), evs @ evd))))
+                | _ -> Fail UB_unreachable)
+             else if key_absent then
                (match step tpre (OpReserve (zi 1)) with
                 | Fail e -> Fail e
                 | Ok ((t1, o1), evs1) ->
@@ -1110,9 +1130,12 @@ let () =
          if do_a && lawful && !spec_valid && opname <> "par_split" && not is_serde && opname <> "getmanymut" && not own_rule then begin
            incr a_checked;
            let contents = occupants tpost in
+           if opname = "fromiter" && ret <> Some OutUnwind then spec := [];
            (match ret with
             | Some OutUnwind ->
-              if not (unwind_accepts !spec op contents) then
+              (* from_iter: the harness installs the new map and then drops the old one: a panic inside the
+                 construction leaves the old map, a panic while dropping the OLD map leaves the new one *)
+              if not (unwind_accepts !spec op contents) && not (opname = "fromiter" && unwind_accepts [] op contents) then
                 say "A-FAIL %s: contents after unwinding are not explainable: spec=[%s] impl=[%s]" where
                   (String.concat "," (sorted_kvs !spec)) (String.concat "," (sorted_kvs contents));
               spec := contents
